@@ -402,6 +402,15 @@ void FileManager::readProperty(std::istream& _iff, MeshT& _mesh) const {
     name = line;
     extractQuotedText(name);
 
+    if (name.empty()) {
+        // Properties in files are persistent, hence shared, hence named.
+        if (verbosity_level_ >= 1) {
+            std::cerr << "OVM File loading error: property without a name, giving up." << std::endl;
+        }
+        _iff.setstate(std::ios_base::failbit);
+        return;
+    }
+
     if (verbosity_level_ >= 2) {
         std::cerr << "OVM read property " << name << " of type " << prop_t << std::endl;
     }
